@@ -176,8 +176,8 @@ func noteFork(p *Path, kind string) {
 		if p.cur.block != nil {
 			loc += fmt.Sprintf("#%d", p.cur.block.Index)
 		}
-		if p.cur.caller != nil && p.cur.caller.fn != nil {
-			loc += " <- " + p.cur.caller.fn.Name()
+		for f, n := p.cur.caller, 0; f != nil && f.fn != nil && n < 5; f, n = f.caller, n+1 {
+			loc += " <- " + f.fn.Name()
 		}
 	}
 	forkLogMu.Lock()
@@ -938,7 +938,7 @@ func (p *Path) execInstr(fr *Frame, ins ssa.Instruction) {
 		}
 		panic(p.unsupported("slice to array pointer on structured array"))
 	case *ssa.MakeChan:
-		fr.locals[x] = &Opaque{Kind: "chan"}
+		fr.locals[x] = &Opaque{Kind: "chan", Data: x}
 	case *ssa.Send:
 		panic(p.unsupported("channel send"))
 	case *ssa.Select:
